@@ -252,6 +252,47 @@ fn run_hist(ctx: &RunCtx, tier: Tier) -> RunOut {
     }
 }
 
+/// The network clause alone, usable on any log: every request lies inside a check the policy
+/// allowed and carries the install source / interactivity of the parameters the policy returned
+/// for that check - also when control requests arrive while the check is running.
+pub fn requests_follow_policy(log: &[Obs]) -> V {
+    let mut allowed: Option<Params> = None;
+    let mut in_wait = false;
+    for (i, o) in log.iter().enumerate() {
+        match o {
+            Obs::CheckAllowed { ans, .. } => {
+                allowed = ans.positive();
+                in_wait = false;
+            }
+            Obs::Ev(Ev::State(State::WaitingForReboot)) => in_wait = true,
+            Obs::Ev(Ev::State(State::Idle)) => {
+                allowed = None;
+                in_wait = false;
+            }
+            Obs::Req(r) => {
+                let p = match allowed {
+                    Some(p) => p,
+                    None => return bad(format!("{:?} request sent outside a check the policy allowed", r.kind), format!("#{i} req#{}", r.idx)),
+                };
+                if r.kind == ReqKind::Ping && in_wait {
+                    continue;
+                }
+                let src = r.json["request"]["installsource"].as_str().unwrap_or("");
+                let exp_src = if p.src == Src::OnDemand { "ondemand" } else { "scheduledtask" };
+                if src != exp_src {
+                    return bad(format!("{:?} request carries install source {src}, policy returned {exp_src}", r.kind), format!("req#{}", r.idx));
+                }
+                let inter = r.header("x-goog-update-interactivity").unwrap_or("");
+                if inter != if p.src == Src::OnDemand { "fg" } else { "bg" } {
+                    return bad(format!("{:?} request carries interactivity {inter} for source {exp_src}", r.kind), format!("req#{}", r.idx));
+                }
+            }
+            _ => {}
+        }
+    }
+    Ok(())
+}
+
 fn oracle(log: &[Obs]) -> V {
     // state of the consent window
     let mut allowed: Option<Params> = None; // params of the check in progress (positive decision, not yet Idle)
@@ -442,6 +483,13 @@ fn parts(tier: Tier) -> Vec<PartDef> {
             json!({"iterations": tier.pick(2, 3), "triggers": ["timers", "scheduled request", "on-demand request"], "check_decisions": 19, "server": 4, "install_decisions": 3, "plan": 2, "install_per_app": 3, "reboot_needed": 2, "reboot_sequences": 5,
                    "exploration": format!("triggers exhaustive; at most {d} non-default environment answers per history")}),
             move |ctx| run_hist(ctx, tier),
+        ),
+        PartDef::new(
+            "control-requests-during-a-check",
+            Cfg::new("C05/control-requests-during-a-check").dev(tier.pick(0, 1)).free(&["options", "inject", "policy.check", "server.update", "reboot_refusals"]),
+            json!({"driver": "the C11 one-request harness: every operation of the flow blocks, a scheduled or on-demand request is injected at every step, both select! orders", "deviation_bound": tier.pick(0, 1),
+                   "oracle": "every request lies inside an allowed check and carries the install source and interactivity the policy returned for that check"}),
+            move |ctx| crate::props::c11::run_filtered(ctx, tier, &["policy returned", "outside a check the policy allowed", "carries interactivity"]),
         ),
         PartDef::new(
             "invalid-app-sets",
